@@ -202,6 +202,7 @@ Fixpoint e2eg_ok (t : vtab) (acc : list (N * list Z)) (tr : list (gop * eobs))
                                    | [] => e end) t
                    else t) acc rest rd
       | GClose w => e2eg_ok (if st =? 0 then filter (fun e => negb (e.1.2 =? w)) t else t) acc rest rd
+      | GCommit _ => e2eg_ok t acc rest rd
       | GWrite w keys _ =>
           if st =? 0 then
             let mine := filter (fun k => is_some (vauth t k w)) keys in
@@ -217,3 +218,56 @@ Definition e2eg_violates (c : e2eg_case_t) : bool :=
   negb (e2eg_ok [] [(1, []); (2, []); (3, [])] c.1 c.2).
 Definition e2eg_mismatches (cs : list e2eg_case_t) : list nat := find_idx e2eg_mismatch cs.
 Definition e2eg_violations (cs : list e2eg_case_t) : list nat := find_idx e2eg_violates cs.
+
+(* ---- writers with auto-commit disabled and explicit commits (monitor only, no model of the
+   deferred-commit layer): the authorized flags follow the control rule; a rejected write
+   contributes nothing — every persisted sample comes from a write the rule allows, index and
+   data channel agree, every stored domain ends 1ns after its last sample, and a commit that
+   reports "1ns after second s" names a sample of an allowed write. ---- *)
+Definition e2ec_case_t : Type := list (gop * eobs) * list (list Z * list Z) * list Z.
+
+Fixpoint sublistZ (a b : list Z) : bool :=   (* a is a subsequence of b *)
+  match a, b with
+  | [], _ => true
+  | _, [] => false
+  | x :: a', y :: b' => if bool_decide (x = y) then sublistZ a' b' else sublistZ a b'
+  end.
+
+Fixpoint e2ec_ok (t : vtab) (acc : list (N * list Z)) (tr : list (gop * eobs))
+         (rd : list (list Z * list Z)) (gaps : list Z) : bool :=
+  match tr with
+  | [] => forallb (fun g => bool_decide (g = 1%Z)) gaps &&
+          forallb (fun pr => bool_decide (pr.2.1 = pr.2.2) && sublistZ pr.2.1 pr.1.2) (combine acc rd) &&
+          bool_decide (length rd = length acc)
+  | (o, (st, az, ts)) :: rest =>
+      match o with
+      | GOpen w _ units _ =>
+          e2ec_ok (if st =? 0 then t ++ map (fun p => (p.1, w, p.2)) units else t) acc rest rd gaps
+      | GSet w units =>
+          e2ec_ok (if st =? 0 then
+                     map (fun e => match filter (fun p => (p.1 =? e.1.1)) units with
+                                   | p :: _ => if e.1.2 =? w then (e.1.1, w, p.2) else e
+                                   | [] => e end) t
+                   else t) acc rest rd gaps
+      | GClose w => e2ec_ok (if st =? 0 then filter (fun e => negb (e.1.2 =? w)) t else t) acc rest rd gaps
+      | GCommit w =>
+          match ts with
+          | [s; 0%Z] => if existsb (fun p => existsb (fun x => bool_decide (x = s)) p.2) acc
+                        then e2ec_ok t acc rest rd gaps else false
+          | _ => e2ec_ok t acc rest rd gaps
+          end
+      | GWrite w keys _ =>
+          if st =? 0 then
+            let mine := filter (fun k => is_some (vauth t k w)) keys in
+            let should := forallb (gallowed t w) mine in
+            let acc' := map (fun p => if existsb (N.eqb p.1) mine && gallowed t w p.1
+                                      then (p.1, p.2 ++ ts) else p) acc in
+            if bool_decide (az = if should then 1 else 0) then e2ec_ok t acc' rest rd gaps else false
+          else e2ec_ok t acc rest rd gaps
+      end
+  end.
+
+Definition e2ec_violates (c : e2ec_case_t) : bool :=
+  negb (e2ec_ok [] [(1, []); (2, []); (3, [])] c.1.1 c.1.2 c.2).
+Definition e2ec_violations (cs : list e2ec_case_t) : list nat := find_idx e2ec_violates cs.
+Definition e2ec_mismatches (cs : list e2ec_case_t) : list nat := [].
